@@ -158,16 +158,27 @@ func (p *Plugin) Execute(ctx context.Context, req any) (any, *plugins.Error) {
 	case Overrun:
 		// honours cancellation: report it as a (transient) error
 		return nil, &plugins.Error{Code: 3, Message: fmt.Sprintf("cancelled %s #%d", path, k)}
-	case Transient:
-		return nil, &plugins.Error{Code: 7, Message: fmt.Sprintf("transient %s #%d", path, k),
-			Wrapped: &plugins.Error{Code: 8, Message: "inner cause"}}
-	case Permanent:
-		return nil, &plugins.Error{Code: 9, Message: fmt.Sprintf("permanent %s #%d", path, k), Permanent: true,
-			Wrapped: &plugins.Error{Code: 10, Message: "inner permanent", Permanent: true, Wrapped: &plugins.Error{Message: "root"}}}
+	case Transient, Permanent:
+		return nil, scriptedError(out.Kind, path, k)
 	case WrongType:
 		return mkResp(!p.ptr), nil
 	}
 	return mkResp(p.ptr), nil
+}
+
+// scriptedError is the error a sim plugin returns for a transient / permanent
+// outcome. Only the outer Permanent flag is meaningful to the engine; the flags
+// of the wrapped causes vary with (path, invocation) so that nothing may depend
+// on them, and the whole chain must come back from storage unchanged.
+func scriptedError(kind, path string, k int) *plugins.Error {
+	h := propHash(fmt.Sprintf("%s#%d", path, k))
+	if kind == Transient {
+		return &plugins.Error{Code: 7, Message: fmt.Sprintf("transient %s #%d", path, k),
+			Wrapped: &plugins.Error{Code: 8, Message: "inner cause", Permanent: h&1 == 1}}
+	}
+	return &plugins.Error{Code: 9, Message: fmt.Sprintf("permanent %s #%d", path, k), Permanent: true,
+		Wrapped: &plugins.Error{Code: 10, Message: "inner permanent", Permanent: h&2 == 0,
+			Wrapped: &plugins.Error{Message: "root", Permanent: h&4 != 0}}}
 }
 
 // NewRegistry builds a registry of the four sim plugins bound to a world
